@@ -304,6 +304,12 @@ pub fn print_command(c: &Command, st: &mut Style) -> Option<String> {
             }
             Some(out)
         }
+        Command::RememberQuery { spec } => {
+            if spec.name.is_empty() || !spec.name.chars().all(|c| c.is_ascii_alphanumeric() || c == '_' || c == '-') { return None; }
+            let q = print_command(&spec.query, st)?;
+            if !q.to_ascii_uppercase().starts_with("QUERY") || q.to_ascii_uppercase().contains(" AS ") { return None; }
+            Some(format!("{}{}{} {} {}", st.kw("REMEMBER"), st.sp(), q, st.kw("AS"), spec.name))
+        }
         Command::Ping => Some(st.kw("PING")),
         Command::Flush => Some(st.kw("FLUSH")),
         Command::ListUsers => Some(format!("{}{}{}", st.kw("LIST"), st.sp(), st.kw("USERS"))),
